@@ -307,8 +307,9 @@ def cases(tier):
     for n in range(0, (2 if q else 3) + 1):
         cs.append(Case("checksum_corrupt[%d]" % n, "checksum_corrupt", dict(n=n), weight=2 ** (n + 4),
                        need=("wrong checksum rejected",)))
-    for (first, m) in ((("3", 34), ("mn", 34), ("2", 35), ("5", 51), ("KL", 52)) if q else
-                       (("3", 34), ("mn", 34), ("2", 35), ("5", 51), ("KL", 52), ("9", 51), ("c", 52), ("x", 111), ("t", 111))):
+    for (first, m) in ((("3", 34), ("mn", 34), ("2", 35), ("5", 51), ("KL", 52), ("x", 111), ("z", 113), ("2", 175)) if q else
+                       (("3", 34), ("mn", 34), ("2", 35), ("5", 51), ("KL", 52), ("9", 51), ("c", 52), ("x", 111), ("t", 111),
+                        ("z", 112), ("z", 113), ("2", 120), ("z", 140), ("2", 175))):
         cs.append(Case("decode_real[%s,%d]" % (first, m), "decode_real", dict(first=first, m=m), weight=m,
                        need=("real-size decode: positional base-58 value",)))
     for m in ((13, 17, 21) if q else range(13, 41)):
